@@ -191,7 +191,7 @@ func init() {
 		Level: "model_checking",
 		Rule: "every history up to depth d over {insert a / b / without the string, overwrite a / b, concatenating merge, merge+overwrite in one transaction, delete (offset reuse), createSortIndex (between transactions and from inside one that already wrote the column)} on strings over {a,b} " +
 			"(duplicates forced) in one and several blocks; at every node Ascend runs after each of 10 filter chains (length 0-2) and must visit exactly the selected rows holding a value, once each, " +
-			"values non-decreasing and readers positioned; states = distinct (model state, index present)",
+			"values non-decreasing and readers positioned; states = distinct (model state, index present). SCHED: CreateSortIndex beside 1-2 committing transactions in every interleaving up to the preemption bound; at quiescence Ascend is complete and ordered",
 		Assumptions: []string{"only ascending iteration exists in the API"},
 		Budget:      budget(170*time.Second, 28*time.Minute),
 		Bounds: func(tier string) map[string]any {
@@ -209,7 +209,7 @@ func init() {
 				s := s
 				units = append(units, &eng.SeqSpec{UnitName: s.name(), Prop: "C16", Depth: s.depth, Split: 2, New: s.newState})
 			}
-			return units
+			return append(units, c16SchedUnits(tier)...)
 		},
 	})
 }
